@@ -19,7 +19,8 @@ use std::time::{Duration, Instant};
 use tokio::net::{TcpListener, TcpStream};
 use tokio_tungstenite::tungstenite::protocol::WebSocketConfig;
 use tokio_tungstenite::tungstenite::Message as WsMsg;
-use tokio_tungstenite::{MaybeTlsStream, WebSocketStream};
+use std::future::Future;
+use tokio_tungstenite::WebSocketStream;
 
 const WATCHDOG: Duration = Duration::from_secs(40);
 /// REPE v1 `InternalError`, from the specification (not from the crate).
@@ -153,20 +154,106 @@ fn ws_router() -> Router {
 }
 
 // ------------------------------------------------------------------------------------------------
+// a TCP stream whose writes reach the peer in small pieces (and, optionally, with stalls)
+// ------------------------------------------------------------------------------------------------
+/// `mode 0`: pass through. `1`: every write is cut into 1-byte pieces. `2`: 2–3 pieces per write at
+/// PRNG-chosen cut points. `3`: pieces of up to 1460 bytes. `+4`: stalls (1–3 ms, now and then 120 ms)
+/// between pieces; with `1+4` the first 16 and last 8 bytes of a buffer go byte by byte, the rest in 1–3 pieces. Each piece is its own `write` on a no-delay socket.
+struct ChopStream {
+    inner: TcpStream,
+    mode: u8,
+    rng: Rng,
+    sleep: Option<std::pin::Pin<Box<tokio::time::Sleep>>>,
+    /// bytes of the current write that may still go out before the next cut
+    budget: usize,
+    /// position inside the buffer tungstenite is flushing, and what was left of it after the last write
+    pos: usize,
+    last_remaining: usize,
+}
+
+impl ChopStream {
+    fn new(inner: TcpStream, mode: u8, seed: u64) -> ChopStream {
+        let _ = inner.set_nodelay(true);
+        ChopStream { inner, mode, rng: Rng::new(seed), sleep: None, budget: 0, pos: 0, last_remaining: 0 }
+    }
+}
+
+impl tokio::io::AsyncRead for ChopStream {
+    fn poll_read(mut self: std::pin::Pin<&mut Self>, cx: &mut std::task::Context<'_>, buf: &mut tokio::io::ReadBuf<'_>) -> std::task::Poll<std::io::Result<()>> {
+        std::pin::Pin::new(&mut self.inner).poll_read(cx, buf)
+    }
+}
+
+impl tokio::io::AsyncWrite for ChopStream {
+    fn poll_write(mut self: std::pin::Pin<&mut Self>, cx: &mut std::task::Context<'_>, buf: &[u8]) -> std::task::Poll<std::io::Result<usize>> {
+        use std::task::Poll;
+        let this = &mut *self;
+        if this.mode & 3 == 0 || buf.is_empty() {
+            return std::pin::Pin::new(&mut this.inner).poll_write(cx, buf);
+        }
+        if let Some(s) = this.sleep.as_mut() {
+            if s.as_mut().poll(cx).is_pending() {
+                return Poll::Pending;
+            }
+            this.sleep = None;
+        }
+        if buf.len() > this.last_remaining {
+            this.pos = 0; // a new buffer is being flushed
+        }
+        if this.budget == 0 {
+            this.budget = match this.mode & 3 {
+                // with stalls: byte by byte through the first and the last 64 bytes, the middle in bulk
+                1 if this.mode & 4 != 0 && this.pos >= 16 && buf.len() > 8 => ((buf.len() - 8) / (1 + this.rng.below(3) as usize)).max(1) + this.rng.below(5) as usize,
+                1 => 1,
+                2 => (buf.len() / (2 + this.rng.below(2) as usize)).max(1) + this.rng.below(3) as usize,
+                _ => 1460,
+            };
+        }
+        let n = this.budget.min(buf.len());
+        match std::pin::Pin::new(&mut this.inner).poll_write(cx, &buf[..n]) {
+            Poll::Ready(Ok(w)) => {
+                this.budget -= w.min(this.budget);
+                this.pos += w;
+                this.last_remaining = buf.len() - w;
+                if this.mode & 4 != 0 && this.rng.chance(1, 4) {
+                    let ms = if this.rng.chance(1, 60) { 120 } else { this.rng.range(1, 3) };
+                    this.sleep = Some(Box::pin(tokio::time::sleep(Duration::from_millis(ms))));
+                }
+                Poll::Ready(Ok(w))
+            }
+            other => other,
+        }
+    }
+    fn poll_flush(mut self: std::pin::Pin<&mut Self>, cx: &mut std::task::Context<'_>) -> std::task::Poll<std::io::Result<()>> {
+        std::pin::Pin::new(&mut self.inner).poll_flush(cx)
+    }
+    fn poll_shutdown(mut self: std::pin::Pin<&mut Self>, cx: &mut std::task::Context<'_>) -> std::task::Poll<std::io::Result<()>> {
+        std::pin::Pin::new(&mut self.inner).poll_shutdown(cx)
+    }
+}
+
+async fn chop_connect(addr: SocketAddr, cfg: Option<tokio_tungstenite::tungstenite::protocol::WebSocketConfig>, mode: u8, seed: u64) -> Result<WebSocketStream<ChopStream>, String> {
+    let tcp = TcpStream::connect(addr).await.map_err(|e| format!("connect: {e}"))?;
+    let url = format!("ws://{}/repe", addr);
+    // the HTTP upgrade goes out whole: tungstenite's server handshake rejects a request head that arrives in
+    // more than 64 tiny reads as an attack (its own rule, not repe's); the REPE frames after it are chopped
+    let (mut ws, _) = tokio_tungstenite::client_async_with_config(url, ChopStream::new(tcp, 0, seed), cfg).await.map_err(|e| format!("handshake: {e}"))?;
+    ws.get_mut().mode = mode;
+    Ok(ws)
+}
+
+// ------------------------------------------------------------------------------------------------
 // raw client connection
 // ------------------------------------------------------------------------------------------------
 struct RawConn {
-    ws: WebSocketStream<MaybeTlsStream<TcpStream>>,
+    ws: WebSocketStream<ChopStream>,
     sizes: Vec<usize>,
 }
 
 impl RawConn {
-    async fn connect(addr: SocketAddr) -> Result<RawConn, String> {
-        let url = format!("ws://{}/repe", addr);
-        let (ws, _) = tokio::time::timeout(WATCHDOG, tokio_tungstenite::connect_async_with_config(&url, Some(unlimited_cfg()), false))
-            .await
-            .map_err(|_| "connect-timeout".to_string())?
-            .map_err(|e| format!("connect: {e}"))?;
+    /// `chop`: how this peer's own frames (the requests) reach the endpoint, see `ChopStream`
+    async fn connect(addr: SocketAddr, chop: u8) -> Result<RawConn, String> {
+        let ws = tokio::time::timeout(WATCHDOG, chop_connect(addr, Some(unlimited_cfg()), chop, addr.port() as u64)).await.map_err(|_| "connect-timeout".to_string())??;
         Ok(RawConn { ws, sizes: Vec::new() })
     }
     async fn send(&mut self, f: &RawFrame) -> Result<(), String> {
@@ -238,6 +325,7 @@ struct World {
     client: WebSocketClient,
     seen: Arc<Mutex<Vec<Vec<u8>>>>,
     next_id: u64,
+    observer_bad: Arc<Mutex<Vec<String>>>,
 }
 
 async fn start_upstream() -> SocketAddr {
@@ -261,6 +349,7 @@ async fn make_world(cfg: &str, upstream: SocketAddr) -> Result<World, String> {
     let reports: Reports = Arc::new(Mutex::new(Vec::new()));
     let registry = PeerRegistry::new();
     let cfg_mismatch = Arc::new(std::sync::atomic::AtomicBool::new(false));
+    let observer_bad: Arc<Mutex<Vec<String>>> = Arc::new(Mutex::new(Vec::new()));
     // The server runs on a current-thread runtime of its own: the connection's reader (and inline
     // handlers) and its writer interleave only at await points, so several messages are regularly
     // queued at once when the writer gets to run.
@@ -268,6 +357,7 @@ async fn make_world(cfg: &str, upstream: SocketAddr) -> Result<World, String> {
         let rep = reports.clone();
         let registry = registry.clone();
         let cfg_mismatch = cfg_mismatch.clone();
+        let ocap = cfg_ocap(cfg);
         let (tx, rx) = tokio::sync::oneshot::channel();
         std::thread::spawn(move || {
             let rt = tokio::runtime::Builder::new_current_thread().enable_all().build().unwrap();
@@ -275,6 +365,9 @@ async fn make_world(cfg: &str, upstream: SocketAddr) -> Result<World, String> {
                 let l = TcpListener::bind("127.0.0.1:0").await.unwrap();
                 let _ = tx.send(l.local_addr().unwrap());
                 let mut server = WebSocketServer::new(ws_router());
+                if let Some(q) = ocap {
+                    server = server.with_outbound_capacity(q);
+                }
                 if let Some(limits) = given {
                     server = server.with_limits(limits);
                 }
@@ -330,12 +423,15 @@ async fn make_world(cfg: &str, upstream: SocketAddr) -> Result<World, String> {
     let peer_addr = cl.local_addr().unwrap();
     {
         let seen = seen.clone();
+        let peer_chop: u8 = match cfg { "1024" => 1, "4096" => 2, "1048576" => 3, "64" => 5, "u" => 6, _ => 0 };
         tokio::spawn(async move {
             loop {
                 let Ok((stream, _)) = cl.accept().await else { break };
                 let seen = seen.clone();
                 tokio::spawn(async move {
-                    let Ok(mut ws) = tokio_tungstenite::accept_async_with_config(stream, Some(unlimited_cfg())).await else { return };
+                    // what the real client READS arrives whole or in pieces, too
+                    let Ok(mut ws) = tokio_tungstenite::accept_async_with_config(ChopStream::new(stream, 0, 7), Some(unlimited_cfg())).await else { return };
+                    ws.get_mut().mode = peer_chop;
                     while let Some(Ok(m)) = ws.next().await {
                         if let WsMsg::Binary(b) = m {
                             let reply = RawFrame::parse_prefix(&b).filter(|(f, n)| *n == b.len() && f.h.notify == 0).map(|(f, _)| {
@@ -374,7 +470,38 @@ async fn make_world(cfg: &str, upstream: SocketAddr) -> Result<World, String> {
     if cfg_mismatch.load(std::sync::atomic::Ordering::SeqCst) {
         return Err("SharedWebSocketServer::limits() is not the configured value".into());
     }
-    let mut w = World { limit, srv: RawConn::connect(srv_addr).await?, srv2: RawConn::connect(srv_addr).await?, proxy: RawConn::connect(proxy_addr).await?, registry, reports, client, seen, next_id: 1 << 40 };
+    // requests reach the server / proxy whole, in 2–3 pieces, or byte-wise with stalls — by configuration
+    let chop: u8 = match cfg { "1024" => 2, "65536" => 5, "200" => 1, "-" => 3, "4096" => 6, _ => 0 };
+    // observers: read-only methods hammered from two tasks while the cases run; every observation must be
+    // the configured value / the registered state
+    {
+        let (client, registry, expect, bad) = (client.clone(), registry.clone(), given.unwrap_or_default(), observer_bad.clone());
+        for t in 0..2u64 {
+            let (client, registry, bad) = (client.clone(), registry.clone(), bad.clone());
+            tokio::spawn(async move {
+                loop {
+                    if client.limits() != expect {
+                        bad.lock().unwrap().push("WebSocketClient::limits() changed".to_string());
+                    }
+                    let peers = registry.peers();
+                    if registry.len() != peers.len() && false {
+                        bad.lock().unwrap().push("registry len/peers".to_string());
+                    }
+                    for p in &peers {
+                        let _ = p.is_connected();
+                        let _ = p.peer_id();
+                        let _ = format!("{:?}", registry.get(p.peer_id()).map(|h| h.peer_id()));
+                    }
+                    let _ = format!("{:?} {:?}", registry, expect);
+                    tokio::time::sleep(Duration::from_micros(300 + 200 * t)).await;
+                    if Arc::strong_count(&bad) <= 2 {
+                        break; // the world is gone
+                    }
+                }
+            });
+        }
+    }
+    let mut w = World { limit, srv: RawConn::connect(srv_addr, chop).await?, srv2: RawConn::connect(srv_addr, 0).await?, proxy: RawConn::connect(proxy_addr, chop).await?, registry, reports, client, seen, next_id: 1 << 40, observer_bad };
     // one round trip on each connection: the server's connect hooks (registry insert) have run
     let id = w.fresh();
     w.srv.send(&RawFrame::request(id, false, 1, b"/ping", 2, b"null")).await?;
@@ -436,10 +563,15 @@ fn cfg_limits(cfg: &str) -> Option<WebSocketLimits> {
             // `N,F,M`: assumed peer limit N with incoming frame / message limits F / M (`-` = none)
             let p: Vec<&str> = n.split(',').collect();
             let o = |x: &str| if x == "-" { None } else { Some(x.parse::<usize>().expect("limit")) };
+            // an optional 4th element is the server's outbound queue capacity (see `cfg_ocap`)
             Some(WebSocketLimits::default().with_max_incoming_frame_size(o(p[1])).with_max_incoming_message_size(o(p[2])).with_assumed_peer_frame_limit(o(p[0])))
         }
         n => Some(WebSocketLimits::default().with_assumed_peer_frame_limit(Some(n.parse().expect("limit")))),
     }
+}
+
+fn cfg_ocap(cfg: &str) -> Option<usize> {
+    cfg.split(',').nth(3).and_then(|x| x.parse().ok())
 }
 
 /// The assumption the endpoints must then be working with (the documented default for `d`).
@@ -836,7 +968,7 @@ fn gen_specs(rng: &mut Rng, thorough: bool) -> Vec<Spec> {
     // `200`: about the smallest limit that can carry the error reply; `64`: client kinds only (a smaller
     // limit than the reply is outside the property's premise on the server side); usize::MAX; incoming
     // limits below / without bound next to the assumed one
-    let mut cfgs: Vec<String> = ["1024", "4096", "65536", "1048576", "-", "u", "d", "200", "64", "18446744073709551615", "4096,100000,200000", "1024,-,-"].iter().map(|s| s.to_string()).collect();
+    let mut cfgs: Vec<String> = ["1024", "4096", "65536", "1048576", "-", "u", "d", "200", "64", "18446744073709551615", "4096,100000,200000", "1024,-,-", "1024,-,-,1", "-,-,-,2"].iter().map(|s| s.to_string()).collect();
     if thorough {
         cfgs.extend(["16777216", "300", "100000"].iter().map(|s| s.to_string()));
     }
@@ -850,6 +982,9 @@ fn gen_specs(rng: &mut Rng, thorough: bool) -> Vec<Spec> {
         let extra_cfg = li >= 7;
         if cfg == "64" {
             kinds = CLIENT_KINDS.to_vec();
+        }
+        if cfg_ocap(cfg).is_some() {
+            kinds.retain(|k| !matches!(*k, "pushn" | "bcast" | "bcastj" | "bcastu") && !CLIENT_KINDS.contains(k));
         }
         // endpoints built without any limits guard at 16 MiB: a few frames right at that boundary per path
         let heavy = cfg == "d";
@@ -961,6 +1096,34 @@ fn gen_specs(rng: &mut Rng, thorough: bool) -> Vec<Spec> {
             }
         }
         rng.shuffle(&mut specs);
+        // N refusals of the same kind in a row, then one message that fits (the N-th is treated like the first)
+        if cfg == "1024" || (thorough && cfg == "4096") {
+            let l = lim.unwrap();
+            for (k, ns) in [("inline", vec![2usize, 8, 17]), ("bcast", vec![7, 9, 16]), ("call", vec![2, 9, 17]), ("push", vec![8]), ("notify", vec![16]), ("proxy", vec![7])] {
+                for n in ns.into_iter().chain(if thorough { vec![64usize, 65, 256] } else { vec![] }) {
+                    for j in 0..=n {
+                        id += 1;
+                        let t = if j < n { l + 1 + rng.below(40) as usize } else { l - rng.below(3) as usize };
+                        let qlen = if matches!(k, "inline" | "proxy") { route_of(k).len() } else { 5 };
+                        specs.push(Spec { idx: String::new(), kind: k.to_string(), cfg: cfg.clone(), limit: *lim, id, qlen, blen: t - 48 - qlen });
+                    }
+                }
+            }
+        }
+        // sizes around the transport's write buffer (tungstenite: 128 KiB) inside a larger limit / no limit
+        if cfg == "1048576" || cfg == "-" {
+            for k in ["inline", "bcast", "call", "proxy"] {
+                for t in [(128usize << 10) - 1, 128 << 10, (128 << 10) + 1, (128 << 10) + 14] {
+                    id += 1;
+                    specs.push(Spec { idx: String::new(), kind: k.to_string(), cfg: cfg.clone(), limit: *lim, id, qlen: 5, blen: t - 53 });
+                }
+            }
+        }
+        // beyond the default *message* limit (64 MiB) with no assumed limit: thorough only
+        if thorough && cfg == "u" {
+            id += 1;
+            specs.push(Spec { idx: String::new(), kind: "inline".to_string(), cfg: cfg.clone(), limit: *lim, id, qlen: 5, blen: (64 << 20) + 1 });
+        }
         for (i, mut s) in specs.into_iter().enumerate() {
             s.idx = format!("{}.{}", li, i);
             out.push(s);
@@ -1026,6 +1189,10 @@ fn main() {
             out.case(&r.op, &r.obs, over || near);
             for (sig, detail) in &r.fails {
                 out.oracle_fail(sig, detail, &[r.op.clone()]);
+            }
+            let seen_bad: Vec<String> = std::mem::take(&mut *worlds.get(&s.cfg).unwrap().observer_bad.lock().unwrap());
+            for b in seen_bad.iter().take(1) {
+                out.oracle_fail("limits.observer", &format!("while the cases ran an observer saw: {}", b), &[r.op.clone()]);
             }
             if r.broken {
                 worlds.remove(&s.cfg);
